@@ -179,9 +179,8 @@ theorem writeField_length (arch : Endian) (pm : PMsg) (pf : PField) (k : SlotKin
           unfold szOf
           simp only [hstr, ↓reduceIte, ha]
           rw [hw]
-          have hmm : ∀ (e : Nat), min (min (e % 256) pf.length) e = min (e % 256) pf.length := by
+          have hmm : ∀ (e : Nat), min (min e pf.length) e = min e pf.length := by
             intro e
-            have := Nat.mod_le e 256
             omega
           generalize (match v with
             | Val.us (some xs) => List.map Val.u xs
@@ -189,9 +188,9 @@ theorem writeField_length (arch : Endian) (pm : PMsg) (pf : PField) (k : SlotKin
             | Val.fs (some xs) => List.map Val.f xs
             | _ => []).length = e
           rw [hmm e]
-          have hle : min (e % 256) pf.length ≤ pf.length := Nat.min_le_right _ _
-          have : min (e % 256) pf.length * Base.size (tcBase pf.tcode) +
-              (pf.length - min (e % 256) pf.length) * Base.size (tcBase pf.tcode) =
+          have hle : min e pf.length ≤ pf.length := Nat.min_le_right _ _
+          have : min e pf.length * Base.size (tcBase pf.tcode) +
+              (pf.length - min e pf.length) * Base.size (tcBase pf.tcode) =
               Base.size (tcBase pf.tcode) * pf.length := by
             rw [← Nat.add_mul, Nat.add_sub_cancel' hle, Nat.mul_comm]
           rw [this, Nat.mod_eq_of_lt (by omega), Nat.mod_eq_of_lt (by omega)]
